@@ -7,6 +7,7 @@ package harness
 // and otherwise awkward text. The model is an ordered list of entries.
 
 import (
+	"path/filepath"
 	"encoding/json"
 	"fmt"
 	"strconv"
@@ -14,6 +15,7 @@ import (
 	"testing"
 
 	"github.com/Vedant9500/WTF/internal/database"
+	"github.com/Vedant9500/WTF/zz_verif/sim/simos"
 	"pgregory.net/rapid"
 )
 
@@ -52,6 +54,9 @@ type C08Case struct {
 	// Strays: files with the notebook's / history's names in places the tool has no business with (the working
 	// directory, sibling configuration directories); the tool must neither read nor write them
 	Strays []string `json:"strays,omitempty"`
+	// Link: the notebook path is a symbolic link to the real file ("rel": link text relative to the link's directory,
+	// "abs": absolute), as dotfile managers set things up
+	Link string `json:"notebook_is_link,omitempty"`
 }
 
 var c08Shapes = []string{"indented", "flow", "nofinalnl", "blocklast", "crlf", "docmarker", "comments"}
@@ -159,6 +164,9 @@ func genC08(rt *rapid.T) C08Case {
 			c.Notebook = "shaped"
 			c.Shape = rapid.SampledFrom(c08Shapes).Draw(rt, "shape")
 		}
+	}
+	if c.Notebook != "missing" && rapid.IntRange(0, 5).Draw(rt, "linked") == 0 {
+		c.Link = rapid.SampledFrom([]string{"rel", "abs"}).Draw(rt, "linkkind")
 	}
 	if rapid.IntRange(0, 3).Draw(rt, "hasstrays") == 0 {
 		c.Strays = rapid.SliceOfNDistinct(rapid.SampledFrom(c08StrayPaths), 1, 3, rapid.ID[string]).Draw(rt, "strays")
@@ -286,6 +294,7 @@ func runC08(c C08Case) *Outcome {
 	case "malformed":
 		w.disk.WriteRaw(pNotebook, []byte("- command: \"open\n  description: [x\n"), 0o644)
 	}
+	linkNotebook(w.disk, c.Link)
 	malformed := c.Notebook == "malformed"
 	if !malformed {
 		init, err := loadNotebookFrom(w.disk, pNotebook)
@@ -569,3 +578,21 @@ func diffEntry(g, w nbEntry) (field, gv, wv string) {
 func TestC08(t *testing.T) { runProperty(t, "C08", genC08, runC08) }
 
 func init() { awkward = append(awkward, escapeLookalikes...) }
+
+// linkNotebook turns the notebook file into a symbolic link to a file that holds its content.
+func linkNotebook(d *simos.Disk, kind string) {
+	b, ok := d.ReadRaw(pNotebook)
+	if kind == "" || !ok {
+		return
+	}
+	b = append([]byte(nil), b...)
+	d.RemoveRaw(pNotebook)
+	switch kind {
+	case "rel":
+		d.WriteRaw(filepath.Dir(pNotebook)+"/personal.shared.yml", b, 0o644)
+		d.SymlinkRaw(pNotebook, "personal.shared.yml")
+	default:
+		d.WriteRaw("/srv/dotfiles/wtf/personal.yml", b, 0o644)
+		d.SymlinkRaw(pNotebook, "/srv/dotfiles/wtf/personal.yml")
+	}
+}
